@@ -18,6 +18,15 @@ func coreOptChoices() []optChoice {
 	keyed := func(keys ...string) func() GenCfg {
 		return func() GenCfg { c := DefaultCfg(); c.SetKeys = keys; c.Keys = []string{"a", "b", "id", "k", "x"}; return c }
 	}
+	keyedNoNull := func(keys ...string) func() GenCfg {
+		return func() GenCfg {
+			c := DefaultCfg()
+			c.SetKeys = keys
+			c.Keys = []string{"a", "b", "id", "x"}
+			c.AllowNull = false
+			return c
+		}
+	}
 	deep := func() GenCfg { return DeepCfg() }
 	deepNoNull := func() GenCfg { c := DeepCfg(); c.AllowNull = false; return c }
 	return []optChoice{
@@ -33,6 +42,7 @@ func coreOptChoices() []optChoice {
 		{OptMerge, nonull, "MERGE"},
 		{OptSetMrg, nonull, "SET+MERGE"},
 		{OptMsetMrg, nonull, "MULTISET+MERGE"},
+		{OptKeysMrg("id"), keyedNoNull("id"), "SetKeys(id)+MERGE"},
 	}
 }
 
